@@ -112,6 +112,7 @@ fn main() {
             let seed = std::env::var("VERIF_SEED").ok().and_then(|s| s.parse().ok()).unwrap_or(0);
             let ctx = Ctx { id: id.clone(), tier, seed, start: Instant::now() };
             let code = props::run(&ctx);
+            supervise::remove_frozen_exe();
             std::process::exit(code);
         }
         "replay" => {
